@@ -1,9 +1,9 @@
 """Seeded search driver: batches of Hypothesis-generated cases on forked workers, replay
 files, known findings, evidence.  One integer (VERIF_SEED) decides every batch seed."""
-import concurrent.futures as cf
 import faulthandler
 import json
 import multiprocessing
+import multiprocessing.connection
 import os
 import subprocess
 import sys
@@ -164,6 +164,44 @@ def replay_case(engine, pid, case):
     return None
 
 
+def _child_main(conn, fn, args):
+    try:
+        res = fn(*args)
+    except BaseException as exc:  # noqa: BLE001
+        res = {"harness_error": "".join(
+            traceback.format_exception(type(exc), exc, exc.__traceback__))[-6000:]}
+    try:
+        conn.send(res)
+        conn.close()
+    finally:
+        os._exit(0)  # no atexit handlers, no second flush of buffers inherited from the parent
+
+
+def _spawn(ctx, fn, args):
+    """Run fn(*args) in a child forked from the current (pristine) state."""
+    sys.stdout.flush()
+    sys.stderr.flush()
+    recv, send = ctx.Pipe(duplex=False)
+    proc = ctx.Process(target=_child_main, args=(send, fn, args), daemon=True)
+    proc.start()
+    send.close()
+    return proc, recv
+
+
+def _replay_known(pid):
+    from .props import PROPS
+
+    engine = PROPS[pid]["engine"]
+    faulthandler.dump_traceback_later(600, exit=True)
+    results = []
+    for entry in load_known():
+        if entry.get("property") != pid or "case" not in entry:
+            continue
+        results.append((entry, replay_case(engine, pid, entry["case"])))
+    faulthandler.cancel_dump_traceback_later()
+    return {"results": results}
+
+
 # --------------------------------------------------------------------------------------
 # the check
 # --------------------------------------------------------------------------------------
@@ -176,13 +214,26 @@ def check_property(prop, tier, base_seed):
     kernel.install()
     engine.prepare()
 
+    # Everything that executes code of the package runs in a child forked from this pristine
+    # parent (one child per batch, one for the witnesses of the known findings): whatever a
+    # run leaves behind in module-level state of the code under test dies with the child, so
+    # a batch is a function of its seed and the code alone, whichever worker slot it gets.
+    _hyp()  # import Hypothesis once, before forking
+    ctx = multiprocessing.get_context("fork")
     known_lines = []
     known_cases = {}
     regressions = []
-    for entry in load_known():
-        if entry.get("property") != pid or "case" not in entry:
-            continue
-        res = replay_case(engine, pid, entry["case"])
+    proc, conn = _spawn(ctx, _replay_known, (pid,))
+    try:
+        known = conn.recv() if conn.poll(600) else None
+    except EOFError:
+        known = None
+    proc.join(5)
+    if known is None or "harness_error" in known:
+        print("HARNESS-ERROR", pid, "replay of the known findings failed")
+        print((known or {}).get("harness_error", "no answer"))
+        return 2
+    for entry, res in known["results"]:
         if entry.get("status") == "known":
             if res is not None and res[0] == entry.get("label", res[0]):
                 known_lines.append(
@@ -212,8 +263,7 @@ def check_property(prop, tier, base_seed):
     harness = None
     batches_done = 0
     seeds_used = []
-    ctx = multiprocessing.get_context("fork")
-    pending = {}
+    pending = {}  # connection -> (process, batch index, batch seed)
     next_batch = 0
     capped = False
     if regressions:
@@ -221,78 +271,78 @@ def check_property(prop, tier, base_seed):
         failure = {"case": entry["case"], "label": res[0], "message": res[1] +
                    f" [witness of finding {entry['id']}]", "batch": -1, "batch_seed": 0}
         n_batches = 0
-    pool = cf.ProcessPoolExecutor(max_workers=WORKERS, mp_context=ctx)
     try:
-        if True:
-            while True:
-                while (
-                    next_batch < n_batches
-                    and len(pending) < WORKERS
-                    and failure is None
-                    and harness is None
-                ):
-                    if time.time() - t0 > wall_cap:
-                        capped = True
-                        break
-                    bseed = derive_seed(base_seed, pid, tier, next_batch) % (2**63)
-                    fut = pool.submit(
-                        run_batch, pid, tier, bseed, n_examples, watchdog
-                    )
-                    pending[fut] = (next_batch, bseed)
-                    next_batch += 1
-                if not pending:
+        while True:
+            while (
+                next_batch < n_batches
+                and len(pending) < WORKERS
+                and failure is None
+                and harness is None
+            ):
+                if time.time() - t0 > wall_cap:
+                    capped = True
                     break
-                done, _ = cf.wait(pending, timeout=watchdog + 30, return_when=cf.FIRST_COMPLETED)
-                if not done:
-                    harness = "watchdog: no batch finished in time"
-                    break
-                for fut in done:
-                    bidx, bseed = pending.pop(fut)
-                    res = fut.result()
-                    batches_done += 1
-                    seeds_used.append(bseed)
-                    for k in ("evaluations", "checks", "sim_time", "consults", "permuted",
-                              "skipped", "shrink_runs"):
-                        agg[k] += res[k]
-                    for k in ("probes", "faults"):
-                        for name, n in res[k].items():
-                            agg[k][name] = agg[k].get(name, 0) + n
-                    digests.update(res["digests"])
-                    pools[bidx] = res["pool"]
-                    samples[bidx] = res["samples"]
-                    if res["slowest_s"] > agg.get("slowest_s", 0):
-                        agg["slowest_s"] = res["slowest_s"]
-                        agg["slowest_case"] = res["slowest_case"]
-                    if res["harness_error"] and harness is None:
-                        harness = f"batch {bidx} seed {bseed}: {res['harness_error']}"
-                    if res["failure"]:
-                        fail = res["failure"]
-                        kid = known_cases.get(case_digest(fail["case"]))
-                        # batches finish in a timing-dependent order: report the failing batch
-                        # with the lowest index, so that one VERIF_SEED names one violation
-                        if kid is None and (failure is None or bidx < failure["batch"]):
-                            failure = dict(fail, batch=bidx, batch_seed=bseed)
-                if harness is not None:
-                    for fut in pending:
-                        fut.cancel()
-                    break
-                if failure is not None:
-                    for fut, (bidx, _) in list(pending.items()):
-                        if bidx > failure["batch"] and fut.cancel():
-                            pending.pop(fut)
-                    if not any(bidx < failure["batch"] for bidx, _ in pending.values()):
-                        for fut in pending:
-                            fut.cancel()
-                        break
-    except cf.process.BrokenProcessPool as exc:
-        harness = f"worker died (watchdog or crash): {exc!r}"
+                bseed = derive_seed(base_seed, pid, tier, next_batch) % (2**63)
+                proc, conn = _spawn(ctx, run_batch, (pid, tier, bseed, n_examples, watchdog))
+                pending[conn] = (proc, next_batch, bseed)
+                next_batch += 1
+            if not pending:
+                break
+            ready = multiprocessing.connection.wait(list(pending), timeout=watchdog + 30)
+            if not ready:
+                harness = "watchdog: no batch finished in time"
+                break
+            for conn in ready:
+                proc, bidx, bseed = pending.pop(conn)
+                try:
+                    res = conn.recv()
+                except EOFError:
+                    res = None
+                conn.close()
+                proc.join(5)
+                if res is None or "evaluations" not in res:
+                    if harness is None:
+                        harness = (f"batch {bidx} seed {bseed}: worker died (watchdog or crash)"
+                                   if res is None else
+                                   f"batch {bidx} seed {bseed}: {res['harness_error']}")
+                    continue
+                batches_done += 1
+                seeds_used.append((bidx, bseed))
+                for k in ("evaluations", "checks", "sim_time", "consults", "permuted",
+                          "skipped", "shrink_runs"):
+                    agg[k] += res[k]
+                for k in ("probes", "faults"):
+                    for name, n in res[k].items():
+                        agg[k][name] = agg[k].get(name, 0) + n
+                digests.update(res["digests"])
+                pools[bidx] = res["pool"]
+                samples[bidx] = res["samples"]
+                if res["slowest_s"] > agg.get("slowest_s", 0):
+                    agg["slowest_s"] = res["slowest_s"]
+                    agg["slowest_case"] = res["slowest_case"]
+                if res["harness_error"] and harness is None:
+                    harness = f"batch {bidx} seed {bseed}: {res['harness_error']}"
+                if res["failure"]:
+                    fail = res["failure"]
+                    kid = known_cases.get(case_digest(fail["case"]))
+                    # batches finish in a timing-dependent order: report the failing batch
+                    # with the lowest index, so that one VERIF_SEED names one violation
+                    if kid is None and (failure is None or bidx < failure["batch"]):
+                        failure = dict(fail, batch=bidx, batch_seed=bseed,
+                                       examples=n_examples)
+            if harness is not None:
+                break
+            if failure is not None and not any(
+                    bidx < failure["batch"] for _, bidx, _ in pending.values()):
+                break
     finally:
-        # the verdict is decided: batches still running (all of a higher index than the reported
-        # one) are not waited for
-        for proc in list((getattr(pool, "_processes", None) or {}).values()):
-            if pending:
-                proc.terminate()
-        pool.shutdown(wait=not pending, cancel_futures=True)
+        # the verdict is decided: batches still running (all of a higher index than the
+        # reported one) are not waited for
+        for conn, (proc, _, _) in pending.items():
+            proc.kill()
+            proc.join(5)
+            conn.close()
+    seeds_used = [bseed for _, bseed in sorted(seeds_used)]
 
     case_pool = [case for bidx in sorted(pools) for case in pools[bidx]]
     # one sample from each of the first batches (they are different swarm configurations)
@@ -342,12 +392,34 @@ def check_property(prop, tier, base_seed):
                 sort_keys=True,
             )
         # the replay must reproduce in a fresh interpreter before it is reported
-        proc = subprocess.run(
-            [PY, os.path.join(VERIF, "run_check.py"), pid, "--replay", replay_path],
-            capture_output=True, text=True, timeout=600,
-            env=dict(os.environ, PYTHONHASHSEED="0"),
-        )
-        if proc.returncode != 1 or f"label={failure['label']}" not in proc.stdout:
+        def fresh_replay():
+            return subprocess.run(
+                [PY, os.path.join(VERIF, "run_check.py"), pid, "--replay", replay_path],
+                capture_output=True, text=True, timeout=1200,
+                env=dict(os.environ, PYTHONHASHSEED="0"),
+            )
+
+        proc = fresh_replay()
+        reproduced = proc.returncode == 1 and f"label={failure['label']}" in proc.stdout
+        if not reproduced and failure["batch"] >= 0:
+            # The minimised case alone does not fail in a fresh process: the violation needs
+            # state that earlier simulated runs of the same batch left behind in the code under
+            # test (a module-level cache, say).  A batch is a function of its seed, so the
+            # replay file re-executes the whole batch instead and must end in the same failure.
+            with open(replay_path) as handle:
+                doc = json.load(handle)
+            doc.update(mode="batch", tier=tier, examples=failure["examples"],
+                       note="the violation depends on state carried over from earlier simulated "
+                            "runs in the same process; the replay re-executes the batch")
+            with open(replay_path, "w") as handle:
+                json.dump(doc, handle, indent=1, sort_keys=True)
+            proc = fresh_replay()
+            reproduced = proc.returncode == 1 and f"label={failure['label']}" in proc.stdout
+            if reproduced:
+                print("note: the minimised case fails only after the earlier runs of its batch "
+                      "(state carried over between runs inside the code under test); the replay "
+                      "file re-executes the batch")
+        if not reproduced:
             print("HARNESS-ERROR", pid, "replay did not reproduce in a fresh process")
             print(proc.stdout[-2000:], proc.stderr[-2000:])
             status = 2
@@ -429,7 +501,21 @@ def replay_file(prop, path):
     engine.prepare()
     with open(path) as handle:
         doc = json.load(handle)
-    res = replay_case(engine, pid, doc["case"])
+    if doc.get("mode") == "batch":
+        _hyp()
+        out = run_batch(pid, doc["tier"], doc["batch_seed"], doc["examples"], 1100)
+        fail = out.get("failure")
+        res = None
+        if out.get("harness_error"):
+            print(f"replay {path}: HARNESS-ERROR {out['harness_error']}")
+            return 2
+        if fail is not None:
+            same = case_digest(fail["case"]) == case_digest(doc["case"])
+            print(f"replay {path}: batch of {doc['examples']} runs re-executed, "
+                  f"{'same' if same else 'another'} minimised case")
+            res = (fail["label"], fail["message"])
+    else:
+        res = replay_case(engine, pid, doc["case"])
     if res is None:
         print(f"replay {path}: no violation")
         return 0
